@@ -129,6 +129,42 @@ static std::string decode_all(const std::string& in) {
   return out;
 }
 
+// flush callback that hands the SAME buffer back (like object_write_to_stream / _to_sha1 / _to_size)
+// and records every chunk it is given
+struct keep_sink { std::vector<std::string> chunks; size_t total = 0; };
+static torrent::object_buffer_t keep_write(void* data, torrent::object_buffer_t b) {
+  keep_sink* ks = static_cast<keep_sink*>(data);
+  ks->chunks.push_back(std::string(b.first, b.second));
+  ks->total += (b.second - b.first) + 1;
+  if (ks->total > (size_t(1) << 24)) throw std::runtime_error("runaway writer"); // a broken writer must not eat the machine
+  return b;
+}
+
+// B <K|B> <cap> <tree>: the buffered writer with an exactly cap-byte heap buffer (ASan redzone behind it)
+static std::string write_buffered(const std::string& kind, size_t cap, const Object& o) {
+  char* buf = new char[cap];
+  std::string out;
+  try {
+    if (kind == "K") {
+      keep_sink ks;
+      torrent::object_write_bencode_c(&keep_write, &ks, torrent::object_buffer_t(buf, buf + cap), &o);
+      std::string all;
+      for (auto& c : ks.chunks) all += c;
+      std::ostringstream os;
+      torrent::object_write_bencode_c(&torrent::object_write_to_stream, &os, torrent::object_buffer_t(buf, buf + cap), &o);
+      out = std::string("wb:OK s=") + (os.str() == all ? "1" : "0") + " n=" + std::to_string(ks.chunks.size()) + " ";
+      if (ks.chunks.empty()) out += "none";
+      for (size_t i = 0; i < ks.chunks.size(); i++) { if (i) out += ','; out += hex(ks.chunks[i]); }
+    } else {
+      torrent::object_buffer_t r = torrent::object_write_bencode(buf, buf + cap, &o);
+      out = "wb:OK " + hex(buf, r.first - buf);
+    }
+  } catch (torrent::internal_error&) { out = "wb:ERR:internal";
+  } catch (std::exception& e) { out = std::string("wb:ERR:other:") + e.what(); }
+  delete[] buf;
+  return out;
+}
+
 int main() {
   std_setup();
   std::string line;
@@ -148,6 +184,10 @@ int main() {
         SHA1((const unsigned char*)enc.data(), enc.size(), md);
         bool h = torrent::object_sha1(&o) == std::string((char*)md, 20);
         std::cout << "enc:" << hex(enc) << " h=" << (h ? 1 : 0) << " | " << decode_all(enc) << "\n";
+      } else if (t.size() >= 4 && t[0] == "B") {
+        size_t i = 3;
+        Object o = parse_tree(t, i);
+        std::cout << write_buffered(t[1], std::stoul(t[2]), o) << "\n";
       } else {
         std::cout << "BADCASE\n";
       }
